@@ -34,6 +34,8 @@ def histories(strict=False, guaranteed_bias=False, max_ticks=40):
         "rtt_extra": st.sampled_from([0.0, 0.0, 0.0, 0.08, 0.2, 0.4]),    # extra one-way delay: round trips beyond the resend interval
         "ticks": st.lists(st.lists(ops, min_size=0, max_size=2 if strict else 3), min_size=1, max_size=max_ticks),
         "replays": st.lists(st.tuples(st.integers(0, 80), st.sampled_from(["client", "server"]), st.floats(0, 1)).map(list), max_size=4),
+        # forged clear datagrams (valid CRC, every packet type) whose ack fields name the target's pending datagrams
+        "forged": st.lists(st.tuples(st.integers(0, 60), st.sampled_from(["client", "server"]), st.integers(0, 7), st.sampled_from([0, 1, 2])).map(list), max_size=3),
         "dt": st.sampled_from([0.017, 0.02]),
     })
 
@@ -166,6 +168,19 @@ def run(ctx, c, oracle, per_step=None, link_setup=None, payload_fn=None):
                 if pool:
                     em = pool[min(int(which * len(pool)), len(pool) - 1)]
                     w.net.push(w.clock.t + 0.001, em.dst, em.src, em.data)
+            for at, target, ptype, count in c.get("forged", ()):
+                if at == ti:
+                    from vp.props import c01
+                    conn = f.conns["c" if target == "client" else "s"]
+                    seq = c01.place_seq(conn, "next")
+                    ack, bits = c01.ack_fields(conn, "pending")
+                    msgs = [(c01.seq_add(int(conn.bitfield_msg.current_seqnum), 1 + i), ptype if count == 1 else W.T_KEEP_ALIVE, b"") for i in range(count)]
+                    d = W.build_datagram(target == "server", int(w.clock.t), seq, ack, bits, ptype, msgs)
+                    if target == "server":
+                        w.net.push(w.clock.t + 0.0005, w.server_addr, ch.laddr, d)
+                    else:
+                        w.net.push(w.clock.t + 0.0005, ch.laddr, w.server_addr, d)
+                    f.forged = getattr(f, "forged", 0) + 1
         f.t_heal = w.clock.t
         link.healed()
         # heal phase: until every retransmittable / callback-carrying send is resolved, or the cap
